@@ -26,6 +26,10 @@ RULE = ('cases = (set of (address,count) ranges inside one Modbus register bank,
 ASSUMPTIONS = [
     'input ranges have count >= 1 and lie inside one documented bank window (1-9999, 10001-19999, 30001-39999, '
     '40001-99999, 100001-165536, 300001-365536, 400001-465536); the empty set is not generated (vacuous)',
+    'one in ten merge cases passes ranges of two neighbouring banks in one call (each range inside its own bank, hugging the gap '
+    'between them), as a poller holding registers of several types does; a limit of 0 means "none given" (shatter docstring: "If no limit")',
+    'poller clause: poller_modbus over an in-process fake transport (Holding register 4xxxx holds xxxx): after three completed polls '
+    'every requested register reads back its value and the polled ranges cover the requested registers with pieces <= 125',
     'applicable limit when none is given: 1968 for bit banks (1-9999, 10001-19999, 100001-165536), 123 otherwise, '
     'chosen by the piece\'s own start address',
 ]
@@ -97,7 +101,7 @@ def pred_merge(case, stats):
     reach, limit = case['reach'], case['limit']
     classes = classify_merge(ranges, 1 if reach == 'default' else reach, limit)
     nontrivial = bool({'nested', 'duplicate', 'gap_near_reach', 'longer_than_limit'} & set(classes))
-    stats.case(case, nontrivial=nontrivial, classes=['merge:' + c for c in classes])
+    stats.case(case, nontrivial=nontrivial or bool(case.get('mixed')), classes=['merge:' + c for c in classes] + (['merge:two-banks'] if case.get('mixed') else []))
     kw = {}
     if reach != 'default':
         kw['reach'] = reach
@@ -174,8 +178,32 @@ CLAUSES = {'merge': pred_merge, 'shatter': pred_shatter}
 # generators
 
 
+NEIGHBOURS = [((1, 9999), (10001, 19999)), ((10001, 19999), (30001, 39999)), ((30001, 39999), (40001, 99999)),
+              ((40001, 99999), (100001, 165536)), ((100001, 165536), (300001, 365536)), ((300001, 365536), (400001, 465536))]
+
+
+@st.composite
+def mixed_bank_cases(draw):
+    """Ranges of two neighbouring banks in one call (what a poller holding registers of several types passes), hugging the
+    gap between the banks: every output piece must still be confined to one bank."""
+    (lo1, hi1), (lo2, hi2) = draw(st.sampled_from(NEIGHBOURS))
+    ranges = []
+    for _ in range(draw(st.integers(1, 5))):
+        c = draw(st.integers(1, 8))
+        a = hi1 - draw(st.integers(0, 14)) - c + 1
+        ranges.append([max(lo1, a), min(c, hi1 - max(lo1, a) + 1)])
+    for _ in range(draw(st.integers(1, 5))):
+        a = lo2 + draw(st.integers(0, 14))
+        ranges.append([a, draw(st.integers(1, 8))])
+    reach = draw(st.sampled_from(['default', 1, 2, 3, 5, 100, 100]))
+    limit = draw(st.sampled_from([None, None, 0, 5, 123]))
+    return {'ranges': ranges, 'reach': reach, 'limit': limit, 'mixed': True}
+
+
 @st.composite
 def merge_cases(draw):
+    if draw(st.integers(0, 9)) == 0:
+        return draw(mixed_bank_cases())
     lo, hi = draw(st.sampled_from(BANKS))
     # anchor: anywhere, or hugging a 10000-block edge / the bank's ends
     edges = [lo, hi] + [e for e in range((lo // 10000 + 1) * 10000, hi, 10000)]
@@ -202,7 +230,7 @@ def merge_cases(draw):
         c = max(1, min(c, hi - a + 1))
         ranges.append([a, c])
     reach = draw(st.sampled_from(['default', None, 0, 1, 2, 3, 5, 100]))
-    limit = draw(st.sampled_from([None, None, 1, 2, 3, 5, 123, 1968, 5000]))
+    limit = draw(st.sampled_from([None, None, 0, 1, 2, 3, 5, 123, 1968, 5000]))       # (a Falsey limit means: none given)
     return {'ranges': ranges, 'reach': reach, 'limit': limit}
 
 
@@ -210,12 +238,94 @@ def merge_cases(draw):
 def shatter_cases(draw):
     lo, hi = draw(st.sampled_from(BANKS))
     a = draw(st.integers(lo, hi))
-    limit = draw(st.sampled_from([None, None, 1, 2, 3, 7, 123, 124, 1968, 5000]))
+    limit = draw(st.sampled_from([None, None, 0, 1, 2, 3, 7, 123, 124, 1968, 5000]))
     lim = limit or default_limit(a)
     c = draw(st.one_of(st.integers(1, 30), st.builds(lambda k, d: max(1, k * lim + d), st.integers(1, 4), st.integers(-1, 1)),
                        st.integers(1, 6000)))
     c = max(1, min(c, hi - a + 1))
     return {'address': a, 'count': c, 'limit': limit}
+
+
+# ------------------------------------------------------------------------------------------------
+# clause: poller -- the Modbus poller polls the merged / shattered ranges; every requested register gets its value
+
+
+def pred_poller(case, stats):
+    import time
+    try:
+        from cpppo.remote.plc_modbus import poller_modbus
+        from cpppo.remote.pymodbus_fixes import modbus_client_tcp
+        from pymodbus.pdu.register_message import ReadHoldingRegistersRequest, ReadHoldingRegistersResponse
+    except Exception as exc:        # pymodbus flavour not importable here: the clause does not apply
+        stats.exclude('poller clause: pymodbus pieces not importable (%s)' % type(exc).__name__)
+        return
+    requested = sorted(set(case['registers']))
+    polled = []
+
+    class fake_client(modbus_client_tcp):
+        """in-process transport: Holding register 4xxxx holds xxxx"""
+
+        def __init__(self):
+            super(fake_client, self).__init__(host='localhost', port=1)
+
+        def connect(self):
+            return True
+
+        def execute(self, no_response_expected, request):
+            if not isinstance(request, ReadHoldingRegistersRequest):
+                raise common.HarnessError('unexpected Modbus request %r' % (request,))
+            polled.append((40001 + request.address, request.count))
+            return ReadHoldingRegistersResponse(dev_id=request.dev_id, transaction_id=request.transaction_id,
+                                                registers=[(request.address + 1 + i) & 0xFFFF for i in range(request.count)])
+
+    plc = poller_modbus('vp fake PLC', client=fake_client(), reach=case['reach'])
+    try:
+        for a in requested:
+            plc.poll(a, rate=.02)
+        t0 = time.time()
+        while plc.counter < 3 and time.time() - t0 < 30:
+            time.sleep(.02)
+        if plc.counter < 3:
+            raise common.HarnessError('poller did not complete 3 polls within 30 s (inconclusive)')
+        values = {a: plc.read(a) for a in requested}
+    finally:
+        plc.stop()
+    span = requested[-1] - requested[0] + 1
+    stats.case(case, nontrivial=span > 123 and len(requested) >= 2, classes=['poller:span>limit' if span > 123 else 'poller:span<=limit',
+                                                                            'poller:registers:%d' % min(len(requested), 5)])
+    wrong = {a: v for a, v in values.items() if v != a - 40000}
+    if wrong:
+        stats.fail('poller', 'poller:requested-register-never-receives-its-value', case,
+                   observed={'values': {str(a): v for a, v in sorted(wrong.items())[:6]}, 'polled': sorted(set(polled))[:8]},
+                   expected='every requested register is inside a polled range and holds the value read there')
+    covered = set()
+    for a, c in set(polled):
+        if c > 125:
+            stats.fail('poller', 'poller:piece-exceeds-limit', case, observed={'piece': [a, c]}, expected='<= 125 registers per read')
+        covered.update(range(a, a + c))
+    if not set(requested) <= covered:
+        stats.fail('poller', 'poller:requested-register-not-polled', case,
+                   observed={'missing': sorted(set(requested) - covered)[:8], 'polled': sorted(set(polled))[:8]},
+                   expected='the polled ranges cover every requested register')
+
+
+@st.composite
+def poller_cases(draw):
+    base = 40001 + draw(st.integers(0, 500))
+    regs = [base]
+    for _ in range(draw(st.integers(1, 7))):
+        regs.append(regs[-1] + draw(st.sampled_from([1, 2, 50, 99, 100, 100, 101, 122, 123, 124, 200])))
+    return {'registers': regs, 'reach': draw(st.sampled_from([1, 10, 100, 100, 150]))}
+
+
+CLAUSES['poller'] = pred_poller
+
+
+def shard_poller(job):
+    seed, shard, n = job
+    s = Stats()
+    common.hyp_run(s, poller_cases(), pred_poller, n, common.shard_seed(seed, 300 + shard), 'poller', PID)
+    return s
 
 
 def shard_random(job):
@@ -278,7 +388,8 @@ def run(tier, seed):
     n = 20000 if thorough else 2500
     shards = 32 if thorough else 16
     common.parallel(shard_random, [(seed, i, n) for i in range(shards)], stats=stats)
+    common.parallel(shard_poller, [(seed, i, 12 if thorough else 3) for i in range(16)], stats=stats)
     return stats
 
 
-STRATEGIES = {'merge': lambda skey: merge_cases(), 'shatter': lambda skey: shatter_cases()}
+STRATEGIES = {'merge': lambda skey: merge_cases(), 'shatter': lambda skey: shatter_cases(), 'poller': lambda skey: poller_cases()}
